@@ -42,18 +42,28 @@ def ixMoveToFront (s : List String) (i : Nat) : List String :=
   | some x => x :: s.eraseIdx i
   | none => s
 
+/-- `IndexSet::get_index_of` -/
+def ixIndexOf (x : String) : List String → Option Nat
+  | [] => none
+  | y :: ys => if y = x then some 0 else (ixIndexOf x ys).map (· + 1)
+
 /-- `GlyphOrder::set_glyph_id(name, 0)` (ir.rs:134-143). -/
 def setGlyphId0 (s : List String) (name : String) : List String :=
-  match s.idxOf? name with
+  match ixIndexOf name s with
   | some 0 => s
   | some i => ixMoveToFront s i
   | none =>
     -- insert, then the recursive call finds it at the last index
     let s' := ixInsert s name
-    match s'.idxOf? name with
+    match ixIndexOf name s' with
     | some 0 => s'
     | some i => ixMoveToFront s' i
     | none => s'
+
+/-- Specification vocabulary: the first occurrences of a list, in order. -/
+def firstOcc : List String → List String
+  | [] => []
+  | x :: xs => x :: (firstOcc xs).filter (· ≠ x)
 
 /-- `Vec::sort` on glyph names. -/
 def sortNames (xs : List String) : List String := xs.mergeSort (fun a b => decide (a ≤ b))
@@ -104,26 +114,30 @@ structure Glyph where
   mustDecompose : Bool := false
   deriving Repr, Inhabited, DecidableEq
 
-/-- `context.glyphs`: name ↦ glyph. -/
-abbrev Table := String → Option Glyph
+/-- `context.glyphs`: name ↦ glyph, as an association list (newest entry first). -/
+structure Table where
+  entries : List Glyph
 
-def Table.ofList (gs : List Glyph) : Table := fun n => gs.find? (·.name == n)
+def Table.ofList (gs : List Glyph) : Table := ⟨gs⟩
+
+/-- `context.glyphs.get` / `try_get_glyph` -/
+def Table.get (t : Table) (n : String) : Option Glyph := t.entries.find? (fun g => decide (g.name = n))
 
 /-- `context.glyphs.set(g)` -/
-def Table.set (t : Table) (g : Glyph) : Table := fun n => if n = g.name then some g else t n
+def Table.set (t : Table) (g : Glyph) : Table := ⟨g :: t.entries⟩
 
-def Table.comps (t : Table) (n : String) : List String := ((t n).map (·.components)).getD []
+def Table.comps (t : Table) (n : String) : List String := ((t.get n).map (·.components)).getD []
 
-def Table.isExport (t : Table) (n : String) : Bool := ((t n).map (·.exported)).getD false
+def Table.isExport (t : Table) (n : String) : Bool := ((t.get n).map (·.exported)).getD false
 
 /-! ### `prune_missing_components` (glyph.rs:229) -/
 
 def pruneMissing (names : List String) (t : Table) : Table :=
   names.foldl (fun acc n =>
-    match t n with
+    match t.get n with
     | some g =>
-      if g.components.all (fun c => (t c).isSome) then acc
-      else acc.set { g with components := g.components.filter (fun c => (t c).isSome) }
+      if g.components.all (fun c => (t.get c).isSome) then acc
+      else acc.set { g with components := g.components.filter (fun c => (t.get c).isSome) }
     | none => acc) t
 
 /-! ### `depth_sorted_composite_glyphs` (fontdrasil util.rs:18) -/
@@ -132,7 +146,7 @@ def pruneMissing (names : List String) (t : Table) : Table :=
 def depth (t : Table) : Nat → String → Option Nat
   | 0, _ => none
   | f + 1, n =>
-    match t n with
+    match t.get n with
     | none => none
     | some g =>
       if g.components.isEmpty then some 0
@@ -154,7 +168,7 @@ def depthSorted (names : List String) (t : Table) : List String :=
 
 /-- one glyph (`snap` = the snapshot taken before the loop, `cur` = the context being rewritten) -/
 def flattenOne (snap cur : Table) (n : String) : Table :=
-  match snap n with
+  match snap.get n with
   | none => cur
   | some g =>
     -- glyph_has_non_export_components (context.get_glyph(name).emit_to_binary: export flags never change)
@@ -162,7 +176,7 @@ def flattenOne (snap cur : Table) (n : String) : Table :=
       cur.set { g with
         components := g.components.flatMap fun c => if snap.isExport c then [c] else cur.comps c
         hasContours := g.hasContours || g.components.any fun c =>
-          !snap.isExport c && ((cur c).map (·.hasContours)).getD false }
+          !snap.isExport c && ((cur.get c).map (·.hasContours)).getD false }
     else cur
 
 def flattenAll (order : List String) (t : Table) : Table := order.foldl (flattenOne t) t
@@ -217,14 +231,17 @@ def applyFix (st : RState) (op : Op) (g : Glyph) : RState :=
 /-- the outer `'next_todo` loop; `fuel` bounds the number of iterations, `d` the walk depth.
     `none` = fuel exhausted (the real loop would spin forever: a pending glyph that reaches a pending glyph on a cycle). -/
 def resolve (d : Nat) : Nat → RState → Option RState
-  | _, st@{ todo := [], .. } => some st
-  | 0, _ => none
-  | fuel + 1, st@{ todo := (op, g) :: rest, .. } =>
-    if reachesPending st.table st.pending d g.components then
-      resolve d fuel { st with todo := rest ++ [(op, g)] }
-    else
-      let st' := applyFix { st with todo := rest } op g
-      resolve d fuel { st' with pending := st'.pending.filter (· ≠ g.name) }
+  | 0, st => if st.todo.isEmpty then some st else none
+  | fuel + 1, st =>
+    match st.todo with
+    | [] => some st
+    | (op, g) :: rest =>
+      if reachesPending st.table st.pending d g.components then
+        -- `todo.push_back((op, glyph)); continue 'next_todo`
+        resolve d fuel { st with todo := rest ++ [(op, g)] }
+      else
+        let st' := applyFix { st with todo := rest } op g
+        resolve d fuel { st' with pending := st'.pending.filter (· ≠ g.name) }
 
 /-! ### `GlyphOrderWork::exec` (glyph.rs:822-945) -/
 
@@ -243,21 +260,21 @@ structure Final where
 /-- glyph.rs:854-861: drop what the source said not to export. `none`: a name without a glyph
     (`context.get_glyph` panics). -/
 def keptOrder (prelim : List String) (t : Table) : Option (List String) :=
-  if prelim.all (fun n => (t n).isSome) then some (prelim.filter t.isExport) else none
+  if prelim.all (fun n => (t.get n).isSome) then some (prelim.filter t.isExport) else none
 
 /-- glyph.rs:866-874: a glyph that still refers to a component outside the new order is decomposed
     (in the context only; `original_glyphs` keeps the snapshot the next step looks at).
     After `flattenAll` this only happens when the preliminary order omits an exported glyph. -/
 def decomposeDangling (kept : List String) (t : Table) : Table :=
   kept.foldl (fun acc n =>
-    match acc n with
+    match acc.get n with
     | some g => if g.components.any (· ∉ kept) then acc.set { g with components := [], hasContours := true } else acc
     | none => acc) t
 
 /-- glyph.rs:882-908 (classification reads the snapshot `original_glyphs`, i.e. the table before `decomposeDangling`) -/
 def todoOf (preferSimple : Bool) (kept : List String) (t : Table) : List (Op × Glyph) :=
   kept.filterMap fun n =>
-    match t n with
+    match t.get n with
     | none => none
     | some g =>
       if g.mustDecompose then some (.convertToContour, g)
@@ -267,7 +284,7 @@ def todoOf (preferSimple : Bool) (kept : List String) (t : Table) : List (Op × 
 
 /-- glyph.rs:679-698 -/
 def ensureNotdef (f : Final) : Final :=
-  match f.order.idxOf? notdef with
+  match ixIndexOf notdef f.order with
   | some _ => { f with order := setGlyphId0 f.order notdef }
   | none =>
     -- synthesize_notdef: a fresh contour glyph, no codepoints, no components
@@ -288,11 +305,23 @@ def finalOrder (s : Source) : Option Final :=
     | none => none
     | some st => some (ensureNotdef { order := st.order, table := st.table })
 
+/-! ## which glyphs get compiled (fontc/src/workload.rs) -/
+
+/-- The names that end up with a glyf fragment. A back-end glyph job exists for every source glyph; it is completed
+    without running when the source glyph has `emit_to_binary == false` (workload.rs:357-384 `update_be_glyph_work`);
+    when the glyph order is final, jobs are added for `final_glyph_order.difference(&preliminary_glyph_order)`
+    (workload.rs:438-448). -/
+def compiledNames (s : Source) (f : Final) : List String :=
+  (s.glyphs.filter (·.exported)).map (·.name) ++ f.order.filter (· ∉ s.prelim)
+
+/-- glyf assembly (`Be(GlyfFragment(name))` must be available for every name of the final order) -/
+def allCompiled (s : Source) (f : Final) : Bool := f.order.all (· ∈ compiledNames s f)
+
 /-! ## cmap (fontbe/src/cmap.rs:33-57) -/
 
 /-- `(codepoint, gid)` for every glyph of the order, in order. -/
 def cmapMappings (order : List String) (t : Table) : List (Nat × Nat) :=
-  order.zipIdx.flatMap fun (n, gid) => (((t n).map (·.codepoints)).getD []).map fun cp => (cp, gid)
+  order.zipIdx.flatMap fun (n, gid) => (((t.get n).map (·.codepoints)).getD []).map fun cp => (cp, gid)
 
 /-- The contract of write-fonts `Cmap::from_mappings` (external crate, cmap.rs:172-187): sort, dedup, fail with
     `CmapConflict` iff one codepoint is left with two different glyph ids; otherwise the table maps exactly the
